@@ -623,13 +623,41 @@ def keeptimes(pid):
                     for k, op in enumerate(st["rv"].get("ops", [])):
                         if k < len(names) and names[k] in ("clsid", "creation_time", "modified_time") and op_local(op) is not None:
                             targets[op_local(op)] = names[k]
-        # follow plain copies back to the named variables
-        work = dict(targets)
-        for _ in range(4):
+        # follow copies back to the named variables - also out of the tuple (or Ok(tuple)) a helper returned them in
+        aggs = {}
+        for blk in f.blocks:
+            for st in blk["stmts"]:
+                if st["s"] == "assign" and not st["place"]["proj"] and st["rv"]["r"] == "aggregate" and isinstance(st["rv"].get("ops"), list):
+                    aggs.setdefault(st["place"]["local"], []).append(st["rv"])
+
+        def through(local, fields, depth=0):
+            """locals that hold the value at `fields` (a list of field indices) inside `local`"""
+            if depth > 6:
+                return set()
+            if not fields:
+                return {local}
+            out = set()
+            for rv in aggs.get(local, []):
+                i = fields[0]
+                if i < len(rv["ops"]) and op_local(rv["ops"][i]) is not None:
+                    out |= through(op_local(rv["ops"][i]), fields[1:], depth + 1)
             for blk in f.blocks:
                 for st in blk["stmts"]:
-                    if st["s"] == "assign" and not st["place"]["proj"] and st["place"]["local"] in work and st["rv"]["r"] == "use" and op_local(st["rv"]["op"]) is not None and not st["rv"]["op"]["place"]["proj"]:
-                        work.setdefault(op_local(st["rv"]["op"]), work[st["place"]["local"]])
+                    if st["s"] == "assign" and not st["place"]["proj"] and st["place"]["local"] == local and st["rv"]["r"] == "use" and st["rv"]["op"].get("k") in ("copy", "move"):
+                        pl = st["rv"]["op"]["place"]
+                        more = [e["i"] for e in pl["proj"] if e.get("p") == "field" and isinstance(e.get("i"), int)]
+                        out |= through(pl["local"], more + fields, depth + 1)
+            return out
+
+        work = dict(targets)
+        for _ in range(5):
+            for blk in f.blocks:
+                for st in blk["stmts"]:
+                    if st["s"] == "assign" and not st["place"]["proj"] and st["place"]["local"] in work and st["rv"]["r"] == "use" and st["rv"]["op"].get("k") in ("copy", "move"):
+                        pl = st["rv"]["op"]["place"]
+                        fields = [e["i"] for e in pl["proj"] if e.get("p") == "field" and isinstance(e.get("i"), int)]
+                        for l2 in through(pl["local"], fields):
+                            work.setdefault(l2, work[st["place"]["local"]])
         consts = []
         for l, fld in work.items():
             for d in pr.defs.get(l, []):
@@ -657,5 +685,41 @@ def keeptimes(pid):
                 else:
                     res.ok({"field": fld, "constant": dp[:30], "object_type": kind, "reachable": False}, nontrivial=True)
         res.floor("constant substitutions of clsid / times, per object type", n, ctx.table("floors").get("keeptimes_sites", 0))
+        return res
+    return run
+
+
+def entrykeep(pid):
+    """R-ENTRYKEEP: the cached directory entry is the one the callers have already acted on.  write_data_to_stream and
+    resize_stream free or move a stream's old chain BEFORE they update its entry through with_dir_entry_mut; when the
+    write of the entry then fails, the cached entry (new start sector, new length) is the only record of where the
+    data now lives.  So Directory::with_dir_entry_mut / with_root_dir_entry_mut change the cached entry through the
+    caller's closure only: no whole-entry store puts an older copy back (a `roll-back on failure` makes the entry point
+    at sectors that were freed and may since belong to another stream)."""
+    def run(ctx):
+        res = RuleResult("R-ENTRYKEEP(%s)" % pid, "Directory::with_dir_entry_mut / with_root_dir_entry_mut never assign a whole DirEntry into the table: the cached entry changes through the caller's closure only")
+        n = 0
+        for f in ctx.fx.fns.values():
+            if not re.search(r"internal::directory::Directory::<F>::with_(root_)?dir_entry_mut$", f.path):
+                continue
+            n += 1
+            bad = None
+            for bb, blk in enumerate(f.blocks):
+                if blk["cleanup"]:
+                    continue
+                for st in blk["stmts"]:
+                    if st["s"] != "assign":
+                        continue
+                    pj = st["place"]["proj"]
+                    ty = str(st["place"].get("ty", ""))
+                    if pj and all(e["p"] == "deref" for e in pj) and ty.endswith("DirEntry"):
+                        bad = st
+                    if pj and pj[-1]["p"] == "index" and ty.endswith("DirEntry"):
+                        bad = st
+            if bad is not None:
+                res.fail(Finding(res.rule, "R-ENTRYKEEP/%s/whole-entry-store" % f.path, "%s stores a whole DirEntry into the cached table (an older copy put back): the callers have already freed or moved the chain the older entry points at" % f.path.split("::")[-1], f, bad["span"]))
+            else:
+                res.ok({"function": f.path, "whole_entry_stores": 0}, nontrivial=True)
+        res.floor("entry-updating helpers", n, ctx.table("floors").get("entrykeep_fns", 0))
         return res
     return run
